@@ -13,6 +13,7 @@ partial def loop (h : IO.FS.Stream) (out : IO.FS.Stream) (f : String → String)
 
 def dispatch : String → Option (String → String)
   | "C01" => some AbiGen.runLine
+  | "C02" => some CppGen.runLine
   | "C03" => some Own.runLine
   | "C04" => some Lifetimes.runLine
   | "C05" => some Lower.runLine
